@@ -64,6 +64,44 @@ def poly_grad(terms, x):
     return g
 
 
+def wells_value(wells, x):
+    """sum of -A/(1+q), q = sum w_i (x_i-m_i)^2  (rational 'Gaussian-well' shape: concave flanks, convex core)"""
+    v = 0
+    for w in wells:
+        q = 0
+        for xi, wi, mi in zip(x, w["w"], w["m"]):
+            q = q + wi * (xi - mi) * (xi - mi)
+        v = v - w["A"] / (1 + q)
+    return v
+
+
+def wells_grad(wells, x):
+    g = [x[0] * 0] * len(x)
+    for w in wells:
+        q = 0
+        for xi, wi, mi in zip(x, w["w"], w["m"]):
+            q = q + wi * (xi - mi) * (xi - mi)
+        for k, (xi, wi, mi) in enumerate(zip(x, w["w"], w["m"])):
+            g[k] = g[k] + w["A"] * 2 * wi * (xi - mi) / ((1 + q) * (1 + q))
+    return g
+
+
+def frac_wells(wells):
+    return [dict(A=Fraction(float(w["A"])), w=[Fraction(float(v)) for v in w["w"]],
+                 m=[Fraction(float(v)) for v in w["m"]]) for w in (wells or [])]
+
+
+def spec_value(terms, wells, x):
+    return poly_value(terms, x) + wells_value(wells, x) if wells else poly_value(terms, x)
+
+
+def spec_grad(terms, wells, x):
+    g = poly_grad(terms, x)
+    if wells:
+        g = [a + b for a, b in zip(g, wells_grad(wells, x))]
+    return g
+
+
 def poly_scale(terms, x):
     """sum of |monomial| : the natural scale of rounding errors of the float evaluation"""
     s = Fraction(0)
@@ -113,8 +151,10 @@ def make_energy_class():
                 self._grad = ift.makeField(position.domain, np.full(x.shape, np.nan if box[1] != "huge" else 0.0))
             else:
                 xs = [np.float64(v) for v in x]
-                self._value = np.float64(poly_value(spec["terms"], xs))
-                self._grad = ift.makeField(position.domain, np.array(poly_grad(spec["terms"], xs), dtype=np.float64))
+                wells = spec.get("wells")
+                self._value = np.float64(spec_value(spec["terms"], wells, xs))
+                self._grad = ift.makeField(position.domain,
+                                           np.array(spec_grad(spec["terms"], wells, xs), dtype=np.float64))
 
         def at(self, position):
             return PolyEnergy(position, self._spec, self._longest)
@@ -211,6 +251,7 @@ class Recorder:
     def reset(self):
         self.le0 = None
         self.ev0 = None
+        self.zoom_at = None  # number of events recorded when _zoom was entered
         self.events = []   # [alpha, value | "fpe" | None, derivative | None]
         self.objs = []     # LineEnergy objects of the non-fpe events (kept alive: identity lookups)
 
@@ -263,6 +304,18 @@ class tracing:
         return False
 
 
+def trace_shape(rec):
+    """(number of stage-1 doublings, number of _zoom interpolations) of a recorded run"""
+    zi = rec.zoom_at if rec.zoom_at is not None else len(rec.events)
+    stage1 = rec.events[:zi]
+    der = [e for e in stage1 if e[2] is not None]
+    if rec.zoom_at is not None and stage1 and stage1[-1][2] is None:
+        doublings = len(der)
+    else:
+        doublings = max(0, len(der) - 1)
+    return doublings, len(rec.events) - zi
+
+
 def returned_alpha(rec, start_energy, ret_energy):
     """which evaluation does the returned energy object belong to? 0 = the start energy; None = none of them"""
     if ret_energy is start_energy:
@@ -284,8 +337,19 @@ def run_line_search(case):
         e0 = energy_at(spec, case["x0"], case.get("longest"))
         pk = field(spec["n"], case["d"])
     kw = dict(case["ls"])
-    ls = ift.LineSearch(**kw)
     rec = Recorder()
+    if "ZLS" not in _N:
+        class ZLS(ift.LineSearch):
+            """only notes where `_zoom` is entered (coverage statistics); all logic is the library's"""
+            _rec = None
+
+            def _zoom(self, *a):
+                if self._rec is not None and self._rec.zoom_at is None:
+                    self._rec.zoom_at = len(self._rec.events)
+                return super()._zoom(*a)
+        _N["ZLS"] = ZLS
+    ls = _N["ZLS"](**kw)
+    ls._rec = rec
     out = dict(e0=e0, pk=pk, rec=rec, ret=None)
     with np.errstate(all="ignore"), tracing(rec):
         try:
@@ -390,11 +454,15 @@ def exact_wolfe(case, run):
     if dev > Fraction(1, 10 ** 9) * psc:
         return (f"returned position is not x0 + alpha*d for the evaluated alpha={float(alpha)!r} (dev {float(dev):.3e})",
                 {"site": "LineSearch", "kind": "position"})
-    f0 = poly_value(terms, x0)
-    fs = poly_value(terms, xs)
-    g0 = sum(a * b for a, b in zip(poly_grad(terms, x0), d))
-    gs = sum(a * b for a, b in zip(poly_grad(terms, xs), d))
-    sc = poly_scale(terms, x0) + poly_scale(terms, xs) + abs(c1 * alpha * g0)
+    wells = frac_wells(spec.get("wells"))
+    wsc = sum(abs(w["A"]) for w in wells)
+    wgsc = sum(abs(w["A"]) * 2 * max([abs(v) for v in w["w"]] + [0]) *
+               (max(abs(a - b) for a, b in zip(xs, w["m"])) + 1) for w in wells) * sum(abs(v) for v in d)
+    f0 = spec_value(terms, wells, x0)
+    fs = spec_value(terms, wells, xs)
+    g0 = sum(a * b for a, b in zip(spec_grad(terms, wells, x0), d))
+    gs = sum(a * b for a, b in zip(spec_grad(terms, wells, xs), d))
+    sc = poly_scale(terms, x0) + poly_scale(terms, xs) + abs(c1 * alpha * g0) + 2 * wsc
     tol = Fraction(1, 10 ** 9)
     if not g0 < 0:
         return (f"success although phi'(0) = {float(g0)!r} is not negative", {"site": "LineSearch", "kind": "not-descent"})
@@ -402,7 +470,7 @@ def exact_wolfe(case, run):
         return (f"sufficient decrease violated at the returned point: phi(a)={float(fs)!r} > phi(0)+c1*a*phi'(0)="
                 f"{float(f0 + c1 * alpha * g0)!r} (alpha={float(alpha)!r})", {"site": "LineSearch", "kind": "wolfe1"})
     gsc = sum(abs(a * b) for a, b in zip(poly_grad([(abs(c), e) for c, e in terms], [abs(v) for v in xs]), d))
-    if abs(gs) > c2 * abs(g0) + tol * (gsc + abs(g0)):
+    if abs(gs) > c2 * abs(g0) + tol * (gsc + abs(g0) + wgsc):
         return (f"curvature condition violated at the returned point: |phi'(a)|={float(abs(gs))!r} > c2*|phi'(0)|="
                 f"{float(c2 * abs(g0))!r} (alpha={float(alpha)!r})", {"site": "LineSearch", "kind": "wolfe2"})
     return None
@@ -437,8 +505,14 @@ def make_recorders():
             self._log = log
             self._kw = kw
 
+        def _zoom(self, *a):
+            if getattr(self, "_cur", None) is not None and self._cur.zoom_at is None:
+                self._cur.zoom_at = len(self._cur.events)
+            return super()._zoom(*a)
+
         def perform_line_search(self, energy, pk, f_k_minus_1=None):
             rec = Recorder()
+            self._cur = rec
             entry = dict(x=energy.position.asnumpy().copy(), d=pk.asnumpy().copy(), fkm1=f_k_minus_1)
             self._log["searches"].append(entry)
             with tracing(rec):
@@ -448,6 +522,7 @@ def make_recorders():
                     entry["raised"] = type(ex).__name__
                     entry["rec"] = rec
                     raise
+            self._cur = None
             entry.update(value_in=float(energy.value), value_out=float(new.value), success=bool(ok), rec=rec,
                          gz_out=bool(new.gradient_norm == 0), alpha=returned_alpha(rec, energy, new), pk=pk)
             return new, ok
